@@ -56,7 +56,15 @@ def replay_file(path, repo):
 
 
 def main(args):
-    rc, msg = replay_file(args.replay, args.repo)
+    with open(args.replay) as f:
+        stability = (json.load(f).get("found_by") or {}).get("replay_stability") or ""
+    attempts = 6 if stability.startswith("UNSTABLE") else 1
+    for n in range(attempts):
+        rc, msg = replay_file(args.replay, args.repo)
+        if rc != 0:
+            break
+    if attempts > 1:
+        msg += " [file marked %r: up to %d fresh interpreters tried, %d used]" % (stability[:8], attempts, n + 1)
     if rc == 1:
         print("VIOLATION property=C18 replay=%s" % os.path.abspath(args.replay))
     print(msg)
